@@ -331,7 +331,7 @@ def occurrence_probes(rnd, events, quick):
 
 # ---- the algorithm as a machine (C17_BiscMachine): design theorems by TLC, the intermediate tables against the real code ----
 MACHINE_INVS = ["TypeOK", "MinedTableIsItsMeaning", "TableSound", "OutputSound", "OutputComplete", "OutputIrredundant",
-                "OutputIsItsMeaning", "PatternsShort"]
+                "OutputIsItsMeaning", "PatternsShort", "ForbFastIsDirect"]
 
 
 def machine_start(ctx, rnd, quick):
@@ -354,13 +354,25 @@ def machine_start(ctx, rnd, quick):
         k = {"Family": ("<-", "FamilyDef"), "M": 2, "N": 3, "AllOrders": "FALSE"}
         jobs.append(("MC_C17M", util.cfg(init="Init", next_="Next", invariants=MACHINE_INVS + ["EmitDone"], constants=k),
                      {"files": {"MC_C17M.tla": mod}, "timeout": 3000}))
+    nbig = 0
+    if True:
+        # inputs over S_0..S_4 with patterns up to length 3 (65 536 candidate shadings per pattern)
+        pool4 = pool3 + util.perms_of(4)
+        for dens in (0.3, 0.5, 0.7, 0.85) * (1 if quick else 8):
+            A = tuple(p for p in pool4 if rnd.random() < dens)
+            fdef = "{{" + ", ".join(tlc.tla(list(p)) for p in A) + "}}"
+            mod = util.mc_module("MC_C17M", "C17_BiscMachine", {"FamilyDef": fdef})
+            k = {"Family": ("<-", "FamilyDef"), "M": 3, "N": 4, "AllOrders": "FALSE"}
+            jobs.append(("MC_C17M", util.cfg(init="Init", next_="Next", invariants=MACHINE_INVS + ["EmitDone"], constants=k),
+                         {"files": {"MC_C17M.tla": mod}, "timeout": 3400}))
+            nbig += 1
     small = [A for A in fam if len(A) <= 5][:: (6 if quick else 2)][:24]
     fdef = "{" + ", ".join("{" + ", ".join(tlc.tla(list(p)) for p in A) + "}" for A in small) + "}"
     mod = util.mc_module("MC_C17M", "C17_BiscMachine", {"FamilyDef": fdef})
     k = {"Family": ("<-", "FamilyDef"), "M": 2, "N": 3, "AllOrders": "TRUE"}
     jobs.append(("MC_C17M", util.cfg(init="Init", next_="Next", invariants=MACHINE_INVS, constants=k), {"files": {"MC_C17M.tla": mod}, "timeout": 3000}))
     ex = concurrent.futures.ThreadPoolExecutor(max_workers=1)
-    return ex, ex.submit(tlc.run_many, jobs, 6 if quick else 16), len(fam), len(small)
+    return ex, ex.submit(tlc.run_many, jobs, 6 if quick else 16), len(fam) + nbig, len(small)
 
 
 def machine_finish(ctx, started):
@@ -384,7 +396,8 @@ def machine_finish(ctx, started):
             D = collections.defaultdict(list)
             for a in A:
                 D[len(a)].append(Perm(a))
-            st, got = util.call(quiet, mine, D, 2, 3)
+            mm, nn = rec.get("m", 2), rec.get("n", 3)
+            st, got = util.call(quiet, mine, D, mm, nn)
             if st == "raise":
                 ctx.violation({"kind": "machine", "A": rec["A"], "call": "mine"}, "NoException", "the table of allowed patterns", got)
                 continue
@@ -393,7 +406,7 @@ def machine_finish(ctx, started):
             have_t = {tuple(p): {frozenset(map(tuple, u)) for u in us} for j in (good or {}) for p, us in good[j].items() if us}
             same = sorted(ci) == rec["interval"] and (not rec["interval"] or have_t == want_t)
             if same and rec["interval"]:
-                st, outp = util.call(quiet, forb, ci, good, 2)
+                st, outp = util.call(quiet, forb, ci, good, mm)
                 if st == "raise":
                     ctx.violation({"kind": "machine", "A": rec["A"], "call": "forb"}, "NoException", "the table of forbidden patterns", outp)
                     continue
@@ -401,7 +414,7 @@ def machine_finish(ctx, started):
                 have_b = {tuple(p): {frozenset(map(tuple, u)) for u in us} for j in outp for p, us in outp[j].items() if us}
                 same = have_b == want_b
             if same:
-                st, SG = util.call(quiet, bisc, [Perm(a) for a in A], 2, 3)
+                st, SG = util.call(quiet, bisc, [Perm(a) for a in A], mm, nn)
                 want_o = {(tuple(e["p"]), frozenset(map(tuple, e["R"]))) for e in rec["out"]}
                 have_o = set() if st == "raise" or not SG else {(tuple(p), frozenset(map(tuple, R))) for n in SG for p in SG[n] for R in SG[n][p]}
                 same = st == "ok" and have_o == want_o
